@@ -617,3 +617,101 @@ Proof.
   - unfold same_but_int, ctx_of. cbn. destruct fam; repeat split; reflexivity.
   - intros Hne. unfold ctx_of. destruct fam; [congruence| | |]; reflexivity.
 Qed.
+
+(* ====================================================================== *)
+(* 5. non-vacuity (concrete inputs) and a documented limit of the accessors *)
+(* ====================================================================== *)
+Definition ex_func : func := mkFunc [mkIns 1 (IInt (IANum 1))] [mkBlock 0 [0] [] []; mkBlock 1 [0] [] []] 0 [0; 1] [] [] None.
+(* a result for every key and both blocks: block 0 holds the universal value, block 1 a value that encodes the family *)
+Definition ex_code (fam : keyfam) : Z :=
+  match fam with KSelf => 1000 | KAtIndex i => 2000 + Z.of_N i | KAbs i => 3000 + Z.of_N i | KRel k => 4000 + k end.
+Definition ex_dF : gdict feeval :=
+  map (fun fam => (key_of_fam "Fee" fam, [(0%nat, mkFee true MAX_UINT64z); (1%nat, mkFee false (ex_code fam))])) all_fams.
+Definition ex_dT : gdict (list string) :=
+  map (fun fam => (key_of_fam "TransactionType" fam, [(0%nat, ["Pay"]); (1%nat, match fam with KRel _ => ["Axfer"] | _ => ["Appl"] end)])) all_fams.
+Definition ex_dA : gdict sset :=
+  flat_map (fun key => map (fun fam => (key_of_fam key fam,
+     [(0%nat, [ANY_ADDRESS]); (1%nat, match fam with KAbs 7 => if String.eqb key "Sender" then ["ADDR7"] else [NO_ADDRESS] | _ => [ANY_ADDRESS] end)])) all_fams)
+    addr_BASE_KEYS_gen.
+
+Example fee_store_example : exists t',
+  fee_store_results_gen ex_func ex_dF (function_transaction_contexts_gen ex_func) = Some t' /\
+  option_map ctx_max_fee (read_slot t' 1 (KRel (-3))) = Some 3997%Z /\
+  option_map ctx_max_fee (read_slot t' 1 (KRel 3)) = Some 4003%Z /\
+  option_map ctx_max_fee (read_slot t' 1 (KAtIndex 15)) = Some 2015%Z /\
+  option_map ctx_max_fee (read_slot t' 1 (KAbs 0)) = Some 3000%Z /\
+  option_map ctx_max_fee (read_slot t' 1 KSelf) = Some 1000%Z /\
+  option_map ctx_max_fee_unknown (read_slot t' 0 (KAbs 4)) = Some true /\
+  option_map ctx_max_fee (read_slot t' 0 (KAbs 4)) = Some MAX_UINT64z.
+Proof. eexists. split; [vm_compute; reflexivity|]. repeat split; vm_compute; reflexivity. Qed.
+
+Example type_store_example : exists t',
+  type_store_results_gen ex_func ex_dT (function_transaction_contexts_gen ex_func) = Some t' /\
+  option_map ctx_transaction_types (read_slot t' 1 (KRel (-15))) = Some ["Axfer"] /\
+  option_map ctx_transaction_types (read_slot t' 1 (KAbs 15)) = Some ["Appl"] /\
+  option_map ctx_transaction_types (read_slot t' 0 KSelf) = Some ["Pay"].
+Proof. eexists. split; [vm_compute; reflexivity|]. repeat split; vm_compute; reflexivity. Qed.
+
+Example addr_store_example : exists t',
+  addr_store_results_gen ex_func ex_dA addr_BASE_KEYS_gen (function_transaction_contexts_gen ex_func) = Some t' /\
+  option_map ctx_sender (read_slot t' 1 (KAbs 7)) = Some (mkAddrVal false false ["ADDR7"]) /\
+  option_map ctx_rekeyto (read_slot t' 1 (KAbs 7)) = Some (mkAddrVal false true []) /\
+  option_map ctx_sender (read_slot t' 1 (KAtIndex 7)) = Some (mkAddrVal true false []) /\
+  option_map ctx_sender (read_slot t' 1 (KAbs 8)) = Some (mkAddrVal true false []).
+Proof. eexists. split; [vm_compute; reflexivity|]. repeat split; vm_compute; reflexivity. Qed.
+
+(* the hypotheses of store_all_read_back are satisfiable *)
+Example store_all_example_hyps :
+  (forall b fam, In b (function_blocks ex_func) -> In fam all_fams -> bc_get ex_dF (key_of_fam "Fee" fam) b <> None) /\
+  (forall b fam, In b (function_blocks ex_func) -> In fam all_fams -> bc_get ex_dT (key_of_fam "TransactionType" fam) b <> None) /\
+  (forall key b fam, In key addr_BASE_KEYS_gen -> In b (function_blocks ex_func) -> In fam all_fams -> bc_get ex_dA (key_of_fam key fam) b <> None).
+Proof.
+  assert (HF : forallb (fun b => forallb (fun fam => negb (is_none (bc_get ex_dF (key_of_fam "Fee" fam) b))) all_fams) (function_blocks ex_func) = true) by (vm_compute; reflexivity).
+  assert (HT : forallb (fun b => forallb (fun fam => negb (is_none (bc_get ex_dT (key_of_fam "TransactionType" fam) b))) all_fams) (function_blocks ex_func) = true) by (vm_compute; reflexivity).
+  assert (HA : forallb (fun key => forallb (fun b => forallb (fun fam => negb (is_none (bc_get ex_dA (key_of_fam key fam) b))) all_fams) (function_blocks ex_func)) addr_BASE_KEYS_gen = true) by (vm_compute; reflexivity).
+  rewrite forallb_forall in HF, HT, HA. repeat split.
+  - intros b fam Hb Hin E. specialize (HF b Hb). rewrite forallb_forall in HF. specialize (HF fam Hin). rewrite E in HF. discriminate.
+  - intros b fam Hb Hin E. specialize (HT b Hb). rewrite forallb_forall in HT. specialize (HT fam Hin). rewrite E in HT. discriminate.
+  - intros key b fam Hk Hb Hin E. specialize (HA key Hk). rewrite forallb_forall in HA. specialize (HA b Hb). rewrite forallb_forall in HA.
+    specialize (HA fam Hin). rewrite E in HA. discriminate.
+Qed.
+
+(* a missing result is a KeyError: the store does not silently leave the default *)
+Example fee_store_missing_key_raises :
+  fee_store_results_gen ex_func (filter (fun kv => negb (String.eqb (fst kv) "GTXN_RELATIVE_-1_Fee")) ex_dF) (function_transaction_contexts_gen ex_func) = None.
+Proof. vm_compute. reflexivity. Qed.
+
+(* LIMIT of the accessors (outside the 0..15 quantifier of the theorems): they test only the upper bound, so a negative
+   index is Python's index from the end and ALIASES a slot of the range: gtxn_context(-1) is the slot of index 15
+   (DESIGN section 9: `absolute_index: -1` in a group configuration); an offset outside -15..15 or 0 raises *)
+Theorem accessor_all_ints_refuted :
+  gtxn_context_gen (init_ctx_gen false) (-1) = gtxn_context_gen (init_ctx_gen false) 15 /\
+  absolute_context_gen (init_ctx_gen false) (-16) = absolute_context_gen (init_ctx_gen false) 0 /\
+  gtxn_context_gen (init_ctx_gen false) 16 = None /\ gtxn_context_gen (init_ctx_gen false) (-17) = None /\
+  relative_context_gen (init_ctx_gen false) 0 = None /\ relative_context_gen (init_ctx_gen false) 16 = None /\
+  relative_context_gen (init_ctx_gen false) (-16) = None /\ gtxn_context_gen (init_ctx_gen true) 0 = None.
+Proof. repeat split; vm_compute; reflexivity. Qed.
+(* within the range the accessors are injective: distinct families are distinct references *)
+Theorem accessor_refs_distinct : forall c, ctx_shape c -> forall fam1 fam2, In fam1 all_fams -> In fam2 all_fams ->
+  slot_ref c fam1 <> None /\ (slot_ref c fam1 = slot_ref c fam2 -> fam1 = fam2).
+Proof.
+  intros c Hs fam1 fam2 H1 H2. destruct (ctx_shape_explicit c Hs) as (own & g & a & rv & Lg & La & Lr & ->).
+  destruct (list16 g Lg) as (g0&g1&g2&g3&g4&g5&g6&g7&g8&g9&g10&g11&g12&g13&g14&g15&->).
+  destruct (list16 a La) as (a0&a1&a2&a3&a4&a5&a6&a7&a8&a9&a10&a11&a12&a13&a14&a15&->).
+  destruct (list30 rv Lr) as (r0&r1&r2&r3&r4&r5&r6&r7&r8&r9&r10&r11&r12&r13&r14&r15&r16&r17&r18&r19&r20&r21&r22&r23&r24&r25&r26&r27&r28&r29&->).
+  set (c := mkCtx _ _ _ _).
+  assert (E : map (slot_ref c) all_fams = map (fun fam => Some (match fam with KSelf => RSelf | KAtIndex i => RGtxn (N.to_nat i) | KAbs i => RAbs (N.to_nat i) | KRel k => RRel k end)) all_fams)
+    by (vm_compute; reflexivity).
+  assert (Q : forall fam, In fam all_fams -> slot_ref c fam = Some (match fam with KSelf => RSelf | KAtIndex i => RGtxn (N.to_nat i) | KAbs i => RAbs (N.to_nat i) | KRel k => RRel k end)).
+  { intros fam Hin. clear - E Hin. revert E. induction all_fams as [|x l IH]; [contradiction|]. cbn [map]. intros E. injection E as E0 E.
+    destruct Hin as [<-|Hin]; [exact E0|auto]. }
+  rewrite (Q fam1 H1), (Q fam2 H2). split; [discriminate|]. intros E'. injection E' as E'.
+  destruct fam1, fam2; try discriminate; try reflexivity; injection E' as E'; f_equal; lia.
+Qed.
+
+Print Assumptions fee_store_read_back.
+Print Assumptions type_store_read_back.
+Print Assumptions addr_store_read_back.
+Print Assumptions store_all_read_back.
+Print Assumptions store_all_ctx_of.
+Print Assumptions accessor_refs_distinct.
